@@ -390,7 +390,7 @@ impl Default for Fmt {
     }
 }
 
-const VARIANTS: [&str; 15] = [
+const VARIANTS: [&str; 16] = [
     "plain",
     "crlf",
     "ws-separator",
@@ -406,6 +406,7 @@ const VARIANTS: [&str; 15] = [
     "leading-blank-crlf",
     "all-mixed",
     "long-leading",
+    "leading-dashes",
 ];
 
 fn variant_fmt(name: &str, k: usize) -> Fmt {
@@ -460,6 +461,22 @@ fn variant_fmt(name: &str, k: usize) -> Fmt {
             long_lead: 0,
         },
         "long-leading" => Fmt { long_lead: [12, 45][k % 2], eol: if k % 3 == 0 { "\r\n" } else { "\n" }, ..d },
+        // text in front whose dashes sit right before the BEGIN line (never five in a row)
+        "leading-dashes" => Fmt {
+            lead: [
+                vec!["-"],
+                vec!["---"],
+                vec!["-- "],
+                vec!["1-2"],
+                vec!["released 2017-02-14", "a----"],
+                vec!["text - with - dashes", "----"],
+                vec!["----", ""],
+                vec!["- - - - -", "--", "-"],
+            ][k % 8]
+                .clone(),
+            eol: if (k / 8) % 2 == 1 { "\r\n" } else { "\n" },
+            ..d
+        },
         _ => unreachable!(),
     }
 }
